@@ -1,6 +1,8 @@
 """Engine `binary`: histories of set / delete / delete_subtrie on the real BinaryTrie over a
 RecordingDB, with a dict model carrying the refusal rule (a key that is a proper prefix or an
 extension of a stored key cannot be stored)."""
+import zlib
+
 from eth_hash.auto import keccak
 from trie import BinaryTrie
 from trie.exceptions import NodeOverrideError
@@ -155,6 +157,16 @@ def gen_ladder(rnd, nbytes=32):
     return {"ops": ops, "mode": "ladder"}
 
 
+class HexLike(bytes):
+    """a subclass of bytes, like hexbytes.HexBytes"""
+
+
+def dict_syntax(op):
+    """Every operation has a method spelling and a dict-syntax spelling (trie[k] = v, del trie[k]);
+    which one a history uses is a function of the operation itself, so replays agree."""
+    return zlib.crc32(repr(op[:3]).encode()) % 3 == 0
+
+
 def apply(trie, model, op, ctx=None):
     """Apply one op to the real trie and to the model, enforcing the refusal rule and
     'a call that raises leaves root and contents unchanged' (root part; contents are checked
@@ -162,10 +174,16 @@ def apply(trie, model, op, ctx=None):
     kind = op[0]
     k = unhx(op[1])
     before_root = trie.root_hash
+    # keys and values of a SUBCLASS of bytes (hexbytes.HexBytes style) are byte strings too
+    sub = zlib.crc32(repr(op[:3]).encode()) % 4 == 1
+    if sub:
+        k = HexLike(k)
     if kind == "set":
         v = resolve_value(trie, op[2], ctx)
+        if sub:
+            v = HexLike(v)
         conflict = [s for s in model if prefix_related(k, s)]
-        r = cut(trie.set, k, v, expect=(NodeOverrideError,))
+        r = cut(trie.__setitem__ if dict_syntax(op) else trie.set, k, v, expect=(NodeOverrideError,))
         if isinstance(r, Raised):
             if not conflict:
                 raise Violation("bin-set-refused", "set(%s) refused with NodeOverrideError although no stored key is prefix-related (keys %r)" % (hx(k), [hx(s) for s in model]))
@@ -177,9 +195,9 @@ def apply(trie, model, op, ctx=None):
             model[k] = v
     elif kind in ("del", "sete"):
         if kind == "del":
-            r = cut(trie.delete, k, expect=(NodeOverrideError,))
+            r = cut(trie.__delitem__ if dict_syntax(op) else trie.delete, k, expect=(NodeOverrideError,))
         else:
-            r = cut(trie.set, k, b"", expect=(NodeOverrideError,))
+            r = cut(trie.__setitem__ if dict_syntax(op) else trie.set, k, HexLike(b"") if sub else b"", expect=(NodeOverrideError,))
         if isinstance(r, Raised):
             if k in model:
                 raise Violation("bin-delete-refused", "delete of the stored key %s refused" % hx(k))
@@ -204,6 +222,8 @@ def apply(trie, model, op, ctx=None):
         raise Violation("bin-raise-changed-root", "%s(%s) raised NodeOverrideError but the root hash changed" % (kind, hx(k)))
     if ctx is not None:
         ctx.count(tag)
+        if kind != "dsub" and dict_syntax(op):
+            ctx.count("dict_syntax_ops")
     return tag
 
 
